@@ -66,18 +66,18 @@ theorem ackEstablished_eq (s : Tcb) (seg : Hdr) :
 
 theorem shift_setUna (s : Tcb) (a : Seq) : setUna (s.shift ka kb) (a + ka) = (setUna s a).shift ka kb := rfl
 
-theorem shift_setWindow (s : Tcb) (w : U16) (q a : Seq) (h1 : s.state ≠ .SynSent) (h2 : s.state ≠ .SynReceived) :
+theorem shift_setWindow (s : Tcb) (w : U16) (q a : Seq) (h1 : s.state ≠ .SynSent) :
     setWindow (s.shift ka kb) w (q + kb) (a + ka) = (setWindow s w q a).shift ka kb := by
   obtain ⟨lp, rp, mtu, ini, st, snd, rcv, out, inc, tmo⟩ := s
-  cases st <;> first | exact absurd rfl h1 | exact absurd rfl h2 | rfl
+  cases st <;> first | exact absurd rfl h1 | rfl
 
-theorem shift_windowTest (s : Tcb) (q a : Seq) (h1 : s.state ≠ .SynSent) (h2 : s.state ≠ .SynReceived) :
+theorem shift_windowTest (s : Tcb) (q a : Seq) (h1 : s.state ≠ .SynSent) :
     windowTest (s.shift ka kb) (q + kb) (a + ka) = windowTest s q a := by
   unfold windowTest
-  rw [Tcb.shift_wl1 ka kb s h1, Tcb.shift_wl2 ka kb s h1 h2, modLt_shift, beq_shift, modLeq_shift]
+  rw [Tcb.shift_wl1 ka kb s h1, Tcb.shift_wl2 ka kb s h1, modLt_shift, beq_shift, modLeq_shift]
 
 theorem shift_ackEstablished (s : Tcb) (seg : Hdr) (ha : seg.ctl.ack = true)
-    (h1 : s.state ≠ .SynSent) (h2 : s.state ≠ .SynReceived) :
+    (h1 : s.state ≠ .SynSent) :
     (s.shift ka kb).ackEstablishedProcessing (seg.shift kb ka) =
       M.shift ka kb (s.ackEstablishedProcessing seg) := by
   rw [ackEstablished_eq, ackEstablished_eq]
@@ -93,8 +93,7 @@ theorem shift_ackEstablished (s : Tcb) (seg : Hdr) (ha : seg.ctl.ack = true)
       generalize hs2 : (setUna s seg.ack).removeAckedFromRetransmission seg.ack = s2
       have hst : s2.state = s.state := by rw [← hs2]; rfl
       have g1 : s2.state ≠ .SynSent := by rw [hst]; exact h1
-      have g2 : s2.state ≠ .SynReceived := by rw [hst]; exact h2
-      rw [shift_windowTest ka kb s2 _ _ g1 g2, shift_setWindow ka kb s2 _ _ _ g1 g2]
+      rw [shift_windowTest ka kb s2 _ _ g1, shift_setWindow ka kb s2 _ _ _ g1]
       split <;> rfl
 
 
@@ -114,12 +113,12 @@ theorem ackEstablished_state (s : Tcb) (seg : Hdr) (u : Tcb) (r : ProcessSegment
 
 /-- `afterAckEstablished` commutes when the continuation does on TCBs in the same state -/
 theorem shift_afterAck (s : Tcb) (seg : Hdr) (ha : seg.ctl.ack = true)
-    (h1 : s.state ≠ .SynSent) (h2 : s.state ≠ .SynReceived)
+    (h1 : s.state ≠ .SynSent)
     (k k' : Tcb → ProcessSegmentResult → Tcb.B)
     (hk : ∀ u r, u.state = s.state → k' (u.shift ka kb) r = M.shift ka kb (k u r)) :
     Tcb.afterAckEstablished ((s.shift ka kb).ackEstablishedProcessing (seg.shift kb ka)) k' =
       M.shift ka kb (Tcb.afterAckEstablished (s.ackEstablishedProcessing seg) k) := by
-  rw [shift_ackEstablished ka kb s seg ha h1 h2]
+  rw [shift_ackEstablished ka kb s seg ha h1]
   unfold Tcb.afterAckEstablished
   cases h : s.ackEstablishedProcessing seg with
   | error e => rfl
@@ -151,12 +150,11 @@ theorem shift_bcond0 (s : Tcb) (seg : Hdr) (ha : seg.ctl.ack = true) :
       modBounded s.snd.nxt .Lt seg.ack .Leq s.snd.iss := by
   rw [Tcb.shift_iss, Tcb.shift_nxt, Hdr.shift_ack_of kb ka seg ha, modBounded_shift]
 
-theorem shift_setState_late (s : Tcb) (st : State) (h1 : s.state ≠ .SynSent) (h2 : s.state ≠ .SynReceived)
-    (g1 : st ≠ .SynSent) (g2 : st ≠ .SynReceived) :
+theorem shift_setState_late (s : Tcb) (st : State) (h1 : s.state ≠ .SynSent) (g1 : st ≠ .SynSent) :
     ({ s.shift ka kb with state := st } : Tcb) = ({ s with state := st } : Tcb).shift ka kb := by
   obtain ⟨lp, rp, mtu, ini, st0, snd, rcv, out, inc, tmo⟩ := s
-  cases st0 <;> first | exact absurd rfl h1 | exact absurd rfl h2 | skip
-  all_goals (cases st <;> first | exact absurd rfl g1 | exact absurd rfl g2 | rfl)
+  cases st0 <;> first | exact absurd rfl h1 | skip
+  all_goals (cases st <;> first | exact absurd rfl g1 | rfl)
 
 theorem shift_ackBlock (s : Tcb) (seg : Hdr) :
     Tcb.ackBlock (s.shift ka kb) (seg.shift kb ka) = M.shift ka kb (Tcb.ackBlock s seg) := by
@@ -187,7 +185,7 @@ theorem shift_ackBlock (s : Tcb) (seg : Hdr) :
           seg.wnd seg.seq seg.ack rfl
         have := shift_afterAck ka kb
           (toEstablished ⟨lp, rp, mtu, ini, .SynReceived, snd, rcv, out, inc, tmo⟩ seg.wnd seg.seq seg.ack) seg ha
-          (by rw [toEstablished_state]; decide) (by rw [toEstablished_state]; decide)
+          (by rw [toEstablished_state]; decide)
           (fun s r => if r = .Success then .ok (s, none) else .ok (s, some r))
           (fun s r => if r = .Success then .ok (s, none) else .ok (s, some r))
           (fun u r _ => by split <;> rfl)
@@ -195,17 +193,17 @@ theorem shift_ackBlock (s : Tcb) (seg : Hdr) :
         exact this
       · exact Tcb.shift_enqueueThen ka kb _ _ _ (Tcb.shift_rstForAck ka kb _ seg ha) _ _ (fun u => rfl)
     | Established | FinWait2 | CloseWait =>
-      exact shift_afterAck ka kb _ seg ha (by intro h; cases h) (by intro h; cases h) _ _ (fun u r _ => by split <;> rfl)
+      exact shift_afterAck ka kb _ seg ha (by intro h; cases h) _ _ (fun u r _ => by split <;> rfl)
     | FinWait1 =>
-      refine shift_afterAck ka kb _ seg ha (by intro h; cases h) (by intro h; cases h) _ _ (fun u r hu => ?_)
+      refine shift_afterAck ka kb _ seg ha (by intro h; cases h) _ _ (fun u r hu => ?_)
       dsimp only at hu ⊢
       rw [Tcb.shift_isFinAcked]
-      have e := shift_setState_late ka kb u .FinWait2 (by rw [hu]; decide) (by rw [hu]; decide) (by decide) (by decide)
+      have e := shift_setState_late ka kb u .FinWait2 (by rw [hu]; decide) (by decide)
       by_cases cf : u.isFinAcked = true
       · rw [if_pos cf, if_pos cf, e]; split <;> rfl
       · rw [if_neg cf, if_neg cf]; split <;> rfl
     | Closing =>
-      refine shift_afterAck ka kb _ seg ha (by intro h; cases h) (by intro h; cases h) _ _ (fun u r hu => ?_)
+      refine shift_afterAck ka kb _ seg ha (by intro h; cases h) _ _ (fun u r hu => ?_)
       dsimp only at hu ⊢
       rw [Tcb.shift_isFinAcked]
       have e : ({ u.shift ka kb with state := .TimeWait, timeouts.timeWait := some TIME_WAIT } : Tcb) =
@@ -216,18 +214,13 @@ theorem shift_ackBlock (s : Tcb) (seg : Hdr) :
       · rw [if_pos cf, if_pos cf, e]; split <;> rfl
       · rw [if_neg cf, if_neg cf]; split <;> rfl
     | LastAck =>
-      dsimp only
-      have e := Tcb.shift_isFinAcked ka kb (setUna ⟨lp, rp, mtu, ini, .LastAck, snd, rcv, out, inc, tmo⟩ seg.ack)
-      rw [← shift_setUna] at e
-      split <;> split
-      · rfl
-      · rename_i c1 c2; exact absurd (e.symm.trans c1) c2
-      · rename_i c1 c2; exact absurd (e.trans c2) c1
-      · rfl
-    | TimeWait =>
-      refine Tcb.shift_enqueueThen ka kb _ _ _ ?_ _ _ (fun u => rfl)
-      rw [Tcb.shift_headerBuilder, Tcb.shift_nxt, Hdr.shift_seq, Tcb.shift_rcvwnd, add_right_comm']
-      rfl
+      refine shift_afterAck ka kb _ seg ha (by intro h; cases h) _ _ (fun u r hu => ?_)
+      dsimp only at hu ⊢
+      rw [Tcb.shift_isFinAcked]
+      by_cases cf : u.isFinAcked = true
+      · rw [if_pos cf, if_pos cf]; rfl
+      · rw [if_neg cf, if_neg cf]; split <;> rfl
+    | TimeWait => rfl
 
 
 /-! ## block 3: RST -/
@@ -257,7 +250,9 @@ theorem shift_rstBlock_norm (s : Tcb) (seg : Hdr) :
     split
     · rfl
     · dsimp only
-      split <;> split <;> rfl
+      split
+      · rfl
+      · split <;> split <;> rfl
   · rw [shift_rstBlock ka kb s seg h]
 
 /-! ## block 4: SYN -/
@@ -279,7 +274,7 @@ theorem shift_synEstablished (s : Tcb) (q : Seq) (w : U16) (a : Seq) (h : s.stat
   rfl
 
 theorem shift_synReceived (s : Tcb) (q : Seq) (w : U16) (a : Seq) (h : s.state = .SynSent) :
-    synReceived (s.shift ka kb) (q + kb) w a = (synReceived s q w a).shift ka kb := by
+    synReceived (s.shift ka kb) (q + kb) w (a + ka) = (synReceived s q w a).shift ka kb := by
   obtain ⟨lp, rp, mtu, ini, st, snd, rcv, out, inc, tmo⟩ := s
   cases h
   unfold synReceived
@@ -319,13 +314,15 @@ theorem shift_synBlock (s : Tcb) (seg : Hdr)
         have e := shift_synEstablished ka kb ⟨lp, rp, mtu, ini, .SynSent, snd, rcv, out, inc, tmo⟩
           seg.seq seg.wnd seg.ack rfl
         rw [Hdr.shift_ack_of kb ka seg ha]
+        simp only [if_pos ha]
         refine (congrArg (fun t => Tcb.enqueueThen t t.ackHdr (fun s => (.ok (s, none) : Tcb.B))) e).trans ?_
         exact Tcb.shift_enqueueThen ka kb _ _ _ (Tcb.shift_ackHdr ka kb _ (by intro h; cases h)) _ _ (fun u => rfl)
       · rw [if_neg c, if_neg c]
         have ha : seg.ctl.ack = false := by rw [← H']; simpa using c
+        have hna : ¬ seg.ctl.ack = true := by rw [ha]; exact Bool.false_ne_true
         have e := shift_synReceived ka kb ⟨lp, rp, mtu, ini, .SynSent, snd, rcv, out, inc, tmo⟩
-          seg.seq seg.wnd seg.ack rfl
-        rw [Hdr.shift_ack_of_not kb ka seg ha]
+          seg.seq seg.wnd snd.iss rfl
+        simp only [if_neg hna]
         refine (congrArg (fun t => Tcb.enqueueThen t t.synAckHdr (fun s => (.ok (s, some .Success) : Tcb.B))) e).trans ?_
         exact Tcb.shift_enqueueThen ka kb _ _ _ (Tcb.shift_synAckHdr ka kb _ (by intro h; cases h)) _ _ (fun u => rfl)
     | _ =>
@@ -447,13 +444,12 @@ theorem shift_finAdvance (s : Tcb) (seq tl : Seq) :
     · rfl
   · rw [if_neg h, if_neg h]; rfl
 
-theorem shift_finState (s : Tcb) (h : s.state ≠ .SynReceived) :
+theorem shift_finState (s : Tcb) :
     finState (s.shift ka kb) = M.shift ka kb (finState s) := by
   unfold finState
   rw [Tcb.shift_state, Tcb.shift_isFinAcked]
   obtain ⟨lp, rp, mtu, ini, st, snd, rcv, out, inc, tmo⟩ := s
   cases st <;> first
-    | exact absurd rfl h
     | rfl
     | (dsimp only; split <;> rfl)
 
@@ -468,18 +464,14 @@ theorem finAdvance_state (s u : Tcb) (seq tl : Seq) (h : finAdvance s seq tl = .
     · cases h; rfl
   · cases h; rfl
 
-/-- a FIN processed in SYN-RECEIVED moves on with the unset `SND.WL2` (see `Model/TcbShift.lean`):
-    excluded -/
-theorem shift_finBlock (s : Tcb) (seg : Hdr) (tl : Seq) (h : seg.ctl.fin = true → s.state ≠ .SynReceived) :
+theorem shift_finBlock (s : Tcb) (seg : Hdr) (tl : Seq) :
     Tcb.finBlock (s.shift ka kb) (seg.shift kb ka) tl = M.shift ka kb (Tcb.finBlock s seg tl) := by
   rw [finBlock_eq, finBlock_eq, Hdr.shift_ctl, Hdr.shift_seq]
   by_cases hf : (!seg.ctl.fin) = true
   · rw [if_pos hf, if_pos hf]; rfl
   · rw [if_neg hf, if_neg hf, shift_finAdvance]
-    have hf' : seg.ctl.fin = true := by simpa using hf
     cases hx : finAdvance s seg.seq tl with
     | error e => rfl
-    | ok u =>
-      exact shift_finState ka kb u (by rw [finAdvance_state s u _ _ hx]; exact h hf')
+    | ok u => exact shift_finState ka kb u
 
 end Elvis.Tcp
